@@ -243,7 +243,7 @@ pub fn run(ctx: &Ctx) -> Report {
     if rep.has_violation() {
         return rep;
     }
-    rep.add(run_part(ctx, "router-twins", ctx.cases(1_500, 100_000), || hist_case_strategy(30), check_twins, &[]));
+    rep.add(run_part(ctx, "router-twins", ctx.cases(1_500, 60_000), || hist_case_strategy(30), check_twins, &[]));
     rep
 }
 
